@@ -137,6 +137,13 @@ def main():
                          (f.startswith('noescape') and 'noescape' in led))
             if hit:
                 failing = set(failing) | set(['*'])
+        elif clause.startswith('inv-'):
+            # a loop invariant exists only to carry the function's postconditions: a real execution that
+            # falsifies a clause of this function that was discharged on the unchanged tree (ledger) is the
+            # failing input of the broken invariant
+            led = set(c.rsplit(':', 1)[0] for c in rp.get('ledger_clauses', []))
+            if any(f in led for f in failing):
+                failing = set(failing) | set([clause])
         return obs, failing
     for src, inp in cands:
         if src == 'model-error':
